@@ -1,72 +1,75 @@
 (* Driver for the extracted Coq models: reads one case per line on stdin (same lines the Go harness
    ran), prints one canonical result line per case on stdout. *)
+module S = String
+module L = List
+type str = string
 open Model
 
 let rec pos_of_int n = if n = 1 then XH else if n land 1 = 0 then XO (pos_of_int (n lsr 1)) else XI (pos_of_int (n lsr 1))
 let n_of_int d = if d = 0 then N0 else Npos (pos_of_int d)
 let ten = n_of_int 10
 (* decimal string -> N without going through a 63-bit int *)
-let n_of_string (s:string) : n =
+let n_of_string (s:str) : n =
   let acc = ref N0 in
-  String.iter (fun c -> acc := N.add (N.mul !acc ten) (n_of_int (Char.code c - 48))) s; !acc
+  S.iter (fun c -> acc := N.add (N.mul !acc ten) (n_of_int (Char.code c - 48))) s; !acc
 let rec int_of_pos = function XH -> 1 | XO p -> 2 * int_of_pos p | XI p -> 2 * int_of_pos p + 1
 let int_of_n = function N0 -> 0 | Npos p -> int_of_pos p
 (* N -> decimal string, exact for any size *)
-let string_of_n (x:n) : string =
+let string_of_n (x:n) : str =
   match x with N0 -> "0" | _ ->
   let buf = Buffer.create 24 in
   let rec go x acc = match x with N0 -> acc | _ ->
     let (q, r) = N.div_eucl x ten in go q (Char.chr (48 + int_of_n r) :: acc) in
-  List.iter (Buffer.add_char buf) (go x []); Buffer.contents buf
-let z_of_string (s:string) : z =
-  if String.length s > 0 && s.[0] = '-' then
-    (match n_of_string (String.sub s 1 (String.length s - 1)) with N0 -> Z0 | Npos p -> Zneg p)
+  L.iter (Buffer.add_char buf) (go x []); Buffer.contents buf
+let z_of_string (s:str) : z =
+  if S.length s > 0 && s.[0] = '-' then
+    (match n_of_string (S.sub s 1 (S.length s - 1)) with N0 -> Z0 | Npos p -> Zneg p)
   else (match n_of_string s with N0 -> Z0 | Npos p -> Zpos p)
 let string_of_z = function Z0 -> "0" | Zpos p -> string_of_n (Npos p) | Zneg p -> "-" ^ string_of_n (Npos p)
 let zbytes_of_hex h = if h = "-" then [] else
-  List.init (String.length h / 2) (fun i -> match n_of_int (int_of_string ("0x" ^ String.sub h (2*i) 2)) with N0 -> Z0 | Npos p -> Zpos p)
+  L.init (S.length h / 2) (fun i -> match n_of_int (int_of_string ("0x" ^ S.sub h (2*i) 2)) with N0 -> Z0 | Npos p -> Zpos p)
 let hex_of_zbytes bs = if bs = [] then "-" else
-  String.concat "" (List.map (fun b -> Printf.sprintf "%02x" (match b with Z0 -> 0 | Zpos p -> int_of_pos p | Zneg _ -> 0)) bs)
+  S.concat "" (L.map (fun b -> Printf.sprintf "%02x" (match b with Z0 -> 0 | Zpos p -> int_of_pos p | Zneg _ -> 0)) bs)
 let rec int_of_nat = function O -> 0 | S n -> 1 + int_of_nat n
-let digest_bytes (bs:n list) : string =
+let digest_bytes (bs:n list) : str =
   let b = Buffer.create 1024 in
-  List.iter (fun x -> Buffer.add_char b (Char.chr (int_of_n x))) bs;
+  L.iter (fun x -> Buffer.add_char b (Char.chr (int_of_n x))) bs;
   Printf.sprintf "%d %s" (Buffer.length b) (Digest.to_hex (Digest.string (Buffer.contents b)))
 let rec nat_of_int n = if n <= 0 then O else S (nat_of_int (n-1))
 let bytes_of_hex h = if h = "-" then [] else
-  List.init (String.length h / 2) (fun i -> n_of_int (int_of_string ("0x" ^ String.sub h (2*i) 2)))
+  L.init (S.length h / 2) (fun i -> n_of_int (int_of_string ("0x" ^ S.sub h (2*i) 2)))
 let hex_of_bytes bs = if bs = [] then "-" else
-  String.concat "" (List.map (fun b -> Printf.sprintf "%02x" (int_of_n b)) bs)
+  S.concat "" (L.map (fun b -> Printf.sprintf "%02x" (int_of_n b)) bs)
 
 (* token stream *)
-type toks = { mutable t : string list }
+type toks = { mutable t : str list }
 let tok ts = match ts.t with x :: r -> ts.t <- r; x | [] -> failwith "short line"
 let tn ts = n_of_string (tok ts)
 let ti ts = int_of_string (tok ts)
-let tents ts = let n = ti ts in List.init n (fun _ ->
+let tents ts = let n = ti ts in L.init n (fun _ ->
   let a = tn ts in let b = tn ts in let c = tn ts in let d = tn ts in { tid = a; off = b; len = c; run = d })
 let ents_str es =
-  String.concat " " (string_of_int (List.length es) ::
-    List.concat_map (fun e -> [string_of_n e.tid; string_of_n e.off; string_of_n e.len; string_of_n e.run]) es)
+  S.concat " " (string_of_int (L.length es) ::
+    L.concat_map (fun e -> [string_of_n e.tid; string_of_n e.off; string_of_n e.len; string_of_n e.run]) es)
 
 let id_bytes (b:n list) : n list = b
 let parse_arch ts : archive =
-  let vs = List.init 25 (fun _ -> z_of_string (tok ts)) in
+  let vs = L.init 25 (fun _ -> z_of_string (tok ts)) in
   let es = tents ts in
   let data = bytes_of_hex (tok ts) in
   let meta = bytes_of_hex (tok ts) in
   { a_hdr = list_header vs; a_entries = es; a_data = data; a_meta = meta }
-let proj_str (h : nat -> z) : string =
+let proj_str (h : nat -> z) : str =
   let f i = string_of_z (h (nat_of_int i)) in
-  String.concat " " [f 9; f 10; f 11; f 12; f 13; f 14; f 15; f 16; f 17; f 18; f 19; f 20; f 21; f 22; f 23; f 24; f 8]
+  S.concat " " [f 9; f 10; f 11; f 12; f 13; f 14; f 15; f 16; f 17; f 18; f 19; f 20; f 21; f 22; f 23; f 24; f 8]
 
-let run_case (line:string) : string =
-  let ts = { t = List.filter (fun s -> s <> "") (String.split_on_char ' ' line) } in
+let run_case (line:str) : str =
+  let ts = { t = L.filter (fun s -> s <> "") (S.split_on_char ' ' line) } in
   match tok ts with
   | "iter" ->
     let lb = tn ts in let ro = tn ts in let rl = tn ts in let _gz = ti ts in
     let nd = ti ts in
-    let table = List.init nd (fun _ ->
+    let table = L.init nd (fun _ ->
       let o = tn ts in let l = tn ts in let ok = ti ts in let raw = bytes_of_hex (tok ts) in
       ((o, l), if ok = 1 then Some raw else None)) in
     let (vis, ok) = iterate_table table lb (nat_of_int 16) ro rl in
@@ -80,25 +83,25 @@ let run_case (line:string) : string =
      | None -> "err")
   | "zxy2id" -> let z = tn ts in let x = tn ts in let y = tn ts in "ok " ^ string_of_n (zxy_to_id z x y)
   | "id2zxy" -> let ((z, x), y) = id_to_zxy (tn ts) in
-    String.concat " " ["ok"; string_of_n z; string_of_n x; string_of_n y]
+    S.concat " " ["ok"; string_of_n z; string_of_n x; string_of_n y]
   | "parent" -> "ok " ^ string_of_n (parent_id (tn ts))
   | "hdr_ser" ->
-    let vs = List.init 25 (fun _ -> z_of_string (tok ts)) in
+    let vs = L.init 25 (fun _ -> z_of_string (tok ts)) in
     "ok " ^ hex_of_zbytes (serialize ser_layout (list_header vs))
   | "hdr_deser" ->
     (match deserialize deser_layout (zbytes_of_hex (tok ts)) with
-     | Inl h -> "ok " ^ String.concat " " (List.init 25 (fun i -> string_of_z (h (nat_of_int i))))
+     | Inl h -> "ok " ^ S.concat " " (L.init 25 (fun i -> string_of_z (h (nat_of_int i))))
      | Inr Short -> "crash"
      | Inr _ -> "err")
   | "find" -> let es = tents ts in let id = tn ts in
     (match find_tile es id with
      | None -> "none"
-     | Some e -> String.concat " " ["some"; string_of_n e.tid; string_of_n e.off; string_of_n e.len; string_of_n e.run])
+     | Some e -> S.concat " " ["some"; string_of_n e.tid; string_of_n e.off; string_of_n e.len; string_of_n e.run])
   | "tile" ->
     let data = bytes_of_hex (tok ts) in
     let lb = tn ts in let ro = tn ts in let rl = tn ts in let _gz = ti ts in
     let nd = ti ts in
-    let table = List.init nd (fun _ ->
+    let table = L.init nd (fun _ ->
       let o = tn ts in let l = tn ts in let ok = ti ts in let raw = bytes_of_hex (tok ts) in
       ((o, l), if ok = 1 then Some raw else None)) in
     let id = tn ts in
@@ -120,15 +123,28 @@ let run_case (line:string) : string =
     let dedup = ti ts = 1 in let _ = ti ts in let _ = ti ts in let _ = ti ts in
     let a = parse_arch ts in
     (match cluster id_bytes dedup a N0 N0 N0 with
-     | COk a' -> String.concat " " ["ok"; proj_str a'.a_hdr; ents_str a'.a_entries; hex_of_bytes a'.a_data; hex_of_bytes a'.a_meta]
+     | COk a' -> S.concat " " ["ok"; proj_str a'.a_hdr; ents_str a'.a_entries; hex_of_bytes a'.a_data; hex_of_bytes a'.a_meta]
      | CAlreadyClustered -> "err"
      | CCrash -> "crash")
   | "verify" ->
     let _expect = tok ts in let fsize = z_of_string (tok ts) in
     let _ = ti ts in let _ = ti ts in let _ = ti ts in let _ = ti ts in
-    let vs = List.init 25 (fun _ -> z_of_string (tok ts)) in
+    let vs = L.init 25 (fun _ -> z_of_string (tok ts)) in
     let es = tents ts in
     (match verify (list_header vs) (Some es) fsize with None -> "ok" | Some _ -> "err")
+  | "path" ->
+    (match route_of (bytes_of_hex (tok ts)) with
+     | RTile t -> S.concat " " ["tile"; hex_of_bytes t.tr_name; string_of_n t.tr_z; string_of_n t.tr_x; string_of_n t.tr_y; hex_of_bytes t.tr_ext]
+     | RTileJSON n -> "tilejson " ^ hex_of_bytes n
+     | RMetadata n -> "metadata " ^ hex_of_bytes n
+     | RRoot -> "root"
+     | RNotFound -> "notfound")
+  | "key" ->
+    let root = [L.map n_of_int [114;111;111;116]; L.map n_of_int [115;101;114;118;101;100]] in
+    (match file_for_key root (bytes_of_hex (tok ts)) with
+     | None -> "refused"
+     | Some segs -> "local " ^ hex_of_bytes (L.concat_map (fun sg -> n_of_int 47 :: sg) segs))
+  | "serve" -> "confined"
   | op -> "unknown-op " ^ op
 
 let () =
